@@ -122,10 +122,11 @@ def sim_rmtree(path, *a, **kw):
         info = job_info(d)
         x = w.dir2x.get(d)
         alive = sorted(p.pid for p in w.procs.values() if p.kind == "job" and p.alive and p.x == x) if x is not None else []
+        phases = sorted(p.info.get("phase", "starting") for p in w.procs.values() if p.kind == "job" and p.alive and p.x == x) if x is not None else []
         snap = ws_snapshot(w)
         indexed = sorted(n for n, e in snap["index"].items() for sub in ("jobs", "jobs.bak") if e.get(sub) and rel in e[sub])
         in_jobs = sorted(n for n, e in snap["index"].items() if e.get("jobs") and rel in e["jobs"])
-        k.log("cli-rmtree", rel=rel, x=x, alive=alive, state=info["state"], markers=info["markers"], tags=info["tags"],
+        k.log("cli-rmtree", rel=rel, x=x, alive=alive, phases=phases, state=info["state"], markers=info["markers"], tags=info["tags"],
               name=info["name"], indexed=indexed, in_jobs=in_jobs)
         k.park()
     return shutil.rmtree(path, *a, **kw)
